@@ -48,6 +48,9 @@ StructCases ==
                                           "tuple_identity", "tuple_edit"}, s \in BOOLEAN}
   \cup {Desc("location", "query", ln, t, s) : ln \in {"INT", "STRPLAIN"}, t \in {"header", "formData"}, s \in BOOLEAN}
   \cup {Desc("cf", l, "ARR", cf, s) : l \in {"query", "header", "formData"}, cf \in {"pipes", "ssv"}, s \in BOOLEAN}
+  \* the same parameter declared by the path item on one side and by the operation on the other: nothing changed
+  \* (level_moved), or an optional parameter was added to the operation as well (level_moved_added)
+  \cup {Desc(k, l, ln, "-", s) : k \in {"level_moved", "level_moved_added"}, l \in {"query_pathlevel", "header_pathlevel"}, ln \in {"INT", "ARR"}, s \in BOOLEAN}
   \* collectionFormat left out on one side (it then means csv) and spelled out on the other
   \cup {Desc("cf_from_none", l, "ARR", cf, s) : l \in {"query", "header", "formData"}, cf \in {"pipes", "tsv"}, s \in BOOLEAN}
   \cup {Desc("cf_from_none", l, "ARR", "multi", s) : l \in {"query", "formData"}, s \in BOOLEAN}
@@ -167,6 +170,14 @@ Pair(c) ==
     [] c.kind = "location" ->
          [A |-> Embed("query", leaf, TRUE, "csv"), B |-> Embed(c.edit, leaf, TRUE, "csv"),
           reqs |-> Requests("query", leaf, leaf, "csv")]
+    [] c.kind = "level_moved" ->
+         [A |-> Embed(c.loc, leaf, FALSE, "csv"), B |-> Embed(PLoc(c.loc), leaf, FALSE, "csv"),
+          reqs |-> Requests(PLoc(c.loc), leaf, leaf, "csv")]
+    [] c.kind = "level_moved_added" ->
+         LET b == Embed(PLoc(c.loc), leaf, FALSE, "csv") IN
+         [A |-> Embed(c.loc, leaf, FALSE, "csv"),
+          B |-> [b EXCEPT !.params = Append(@, [name |-> "extra", in |-> "query", required |-> FALSE, type |-> "string"])],
+          reqs |-> Requests(PLoc(c.loc), leaf, leaf, "csv")]
     [] c.kind = "cf" ->
          [A |-> Embed(c.loc, leaf, TRUE, "csv"), B |-> Embed(c.loc, leaf, TRUE, c.edit),
           reqs |-> Requests(c.loc, leaf, leaf, "csv")]
